@@ -173,3 +173,37 @@ Proof.
   unfold ok_trap. intro H. apply orb_true_iff in H as [H|H]; apply Z.eqb_eq in H; subst;
     repeat split; discriminate.
 Qed.
+
+(* ---- a well-typed stack instruction never makes tick fail (C07) ---- *)
+From QV Require Import ErrProofs.
+
+Lemma stack_pre_exec s size : stack (pre_exec s size) = stack s.
+Proof. destruct s; reflexivity. Qed.
+
+Lemma ttarget_set_trapped s a : ttarget_ (set_trapped_addr s a) = ttarget_ s.
+Proof. destruct s; reflexivity. Qed.
+
+(* exec does not change the armed handler except through errhand, which is not a stack instruction *)
+Theorem tick_total_on_typed_stack_instr m s i size t' :
+  in_code m s ->
+  decode (skipn (Z.to_nat (pc s)) (m_code m)) = DOk i size ->
+  eff i (tys (stack s)) = Some t' ->
+  (forall s3 c kw, exec m i (pre_exec s size) = T c kw s3 -> ttarget_ s3 <> TNext) ->
+  (forall s3, exec m i (pre_exec s size) = ZD s3 -> ttarget_ s3 <> TNext) ->
+  exists s', tick m s = Next s'.
+Proof.
+  intros Hc Hd He HT HZ.
+  assert (Hn : forall idx, i <> IPushStr idx).
+  { intros idx ->. cbn in He. discriminate. }
+  rewrite <- (stack_pre_exec s size) in He.
+  pose proof (eff_sound m i (pre_exec s size) t' He) as Hs.
+  destruct (exec m i (pre_exec s size)) as [u s3|c kw s3|s3|k s3|s3] eqn:E; cbn in Hs.
+  - rewrite (tick_ok_shape m s i size u s3 Hc Hd Hn E). apply end_check_next. eauto.
+  - destruct Hs as [_ ->].
+    rewrite (tick_trapped_shape m s i size c true s3 Hc Hd Hn E). apply end_check_next.
+    apply do_trap_total. rewrite ttarget_set_trapped. eapply HT. reflexivity.
+  - rewrite (tick_zerodiv_shape m s i size s3 Hc Hd Hn E). apply end_check_next.
+    apply do_trap_total. rewrite ttarget_set_trapped. eapply HZ. reflexivity.
+  - unfold crash_guard in Hs. discriminate Hs.
+  - contradiction.
+Qed.
